@@ -20,3 +20,94 @@ package common
 //@   pure
 //@   ensures a != nil && a2 != nil && ivalue(a2) != 0 ==> r == (addr_contract(toiface(a)) == addr_contract(a2) && addr_id(toiface(a)) == addr_id(a2))
 //@   ensures a == nil && a2 != nil && ivalue(a2) != 0 ==> !r
+
+// ---------------------------------------------------------------------------
+// C36: addresses have one canonical text form and one byte form
+// (encoding/hex is verified from its GOROOT source: /verif/specs/hex.gospec)
+// ---------------------------------------------------------------------------
+
+//@ property C36
+// canonical text of an address value: "hx"/"cx" followed by the 40 lower-case digits of the id
+//@ spec addrText(a, s) = len(s) == 42 && (a[0] == 1 ==> s[0] == 99) && (a[0] != 1 ==> s[0] == 104) && s[1] == 120 && (forall i int :: {a[1 + i]} 0 <= i && i < 20 ==> s[2 + 2 * i] == hexdigit(a[1 + i] >> 4) && s[3 + 2 * i] == hexdigit(a[1 + i] & 15))
+// strings the strict parser may accept
+//@ spec canonText(s) = len(s) == 42 && (s[0] == 99 || s[0] == 104) && s[1] == 120 && (forall k int :: {s[k]} 2 <= k && k < 42 ==> lowerhex(s[k]))
+
+//@ func (a *Address) IsContract() (r)
+//@   arith bv
+//@   pure
+//@   requires a != nil
+//@   ensures r == (a[0] == 1)
+
+//@ func (a *Address) String() (s)
+//@   arith bv
+//@   pure
+//@   requires a != nil
+//@   ensures [text] addrText(a, s)
+
+//@ func (a *Address) SetTypeAndID(ic, id)
+//@   arith bv
+//@   requires a != nil && ref(id) != ref(a)
+//@   requires len(id) < 20 ==> (forall z int :: {zeroBuffer[z]} 0 <= z && z < 20 ==> zeroBuffer[z] == 0)
+//@   modifies a[*]
+//@   ensures [kind] (ic ==> a[0] == 1) && (!ic ==> a[0] == 0)
+//@   ensures [full] len(id) >= 20 ==> (forall i int :: {a[1 + i]} 0 <= i && i < 20 ==> a[1 + i] == id[i])
+//@   ensures [short] len(id) < 20 ==> (forall i int :: {a[1 + i]} 0 <= i && i < 20 ==> (i < 20 - len(id) ==> a[1 + i] == 0) && (i >= 20 - len(id) ==> a[1 + i] == id[i - (20 - len(id))]))
+
+//@ func (a *Address) SetStringStrict(s) (err)
+//@   arith bv
+//@   requires a != nil && ErrIllegalArgument != nil
+//@   modifies a[*]
+//@   ensures [accept] err == nil <==> canonText(s)
+//@   ensures [value] err == nil ==> (s[0] == 99 ==> a[0] == 1) && (s[0] != 99 ==> a[0] == 0) && (forall i int :: {a[1 + i]} 0 <= i && i < 20 ==> a[1 + i] == hexbyte(s[2 + 2 * i], s[3 + 2 * i]))
+//@   ensures [reject_keeps] err != nil ==> (forall i int :: {a[i]} 0 <= i && i < 21 ==> a[i] == old(a[i]))
+
+//@ func (a *Address) Bytes() (bs)
+//@   arith bv
+//@   pure
+//@   requires a != nil
+//@   ensures ref(bs) == a && off(bs) == 0 && len(bs) == 21
+
+//@ func (a *Address) ID() (bs)
+//@   arith bv
+//@   pure
+//@   requires a != nil
+//@   ensures ref(bs) == a && off(bs) == 1 && len(bs) == 20
+
+//@ func (a *Address) SetBytes(b) (err)
+//@   arith bv
+//@   requires a != nil && ErrIllegalArgument != nil && ref(b) != ref(a)
+//@   modifies a[*]
+//@   ensures [accept] err == nil <==> (len(b) == 20 || (len(b) == 21 && (b[0] == 0 || b[0] == 1)))
+//@   ensures [full] err == nil && len(b) == 21 ==> (forall i int :: {a[i]} 0 <= i && i < 21 ==> a[i] == b[i])
+//@   ensures [id_only] err == nil && len(b) == 20 ==> a[0] == 0 && (forall i int :: {a[1 + i]} 0 <= i && i < 20 ==> a[1 + i] == b[i])
+//@   ensures [reject_keeps] err != nil ==> (forall i int :: {a[i]} 0 <= i && i < 21 ==> a[i] == old(a[i]))
+
+//@ func NewAddress(b) (a, err)
+//@   arith bv
+//@   pure
+//@   requires ErrIllegalArgument != nil
+//@   ensures [accept] err == nil <==> (len(b) == 20 || (len(b) == 21 && (b[0] == 0 || b[0] == 1)))
+//@   ensures [full] err == nil && len(b) == 21 ==> a != nil && (forall i int :: {a[i]} 0 <= i && i < 21 ==> a[i] == b[i])
+//@   ensures [id_only] err == nil && len(b) == 20 ==> a != nil && a[0] == 0 && (forall i int :: {a[1 + i]} 0 <= i && i < 20 ==> a[1 + i] == b[i])
+//@   ensures [none] err != nil ==> a == nil
+
+// Round-trip lemmas (bodies in zz_lemmas_verif.go; callees are used through their contracts only)
+//@ func verifLemmaAddressTextRoundTrip(a, b) (err)
+//@   arith bv
+//@   use hex_digit_val hex_nibbles
+//@   requires a != nil && b != nil && (a[0] == 0 || a[0] == 1) && ErrIllegalArgument != nil
+//@   modifies b[*]
+//@   ensures [roundtrip] err == nil && (forall i int :: {b[i]} 0 <= i && i < 21 ==> b[i] == old(a[i]))
+
+//@ func verifLemmaAddressStrictOnlyCanonical(a, s) (t, err)
+//@   arith bv
+//@   use hex_join hex_val_digit
+//@   requires a != nil && ErrIllegalArgument != nil
+//@   modifies a[*]
+//@   ensures [canonical] err == nil ==> len(t) == len(s) && (forall k int :: {t[k]} 0 <= k && k < len(s) ==> t[k] == s[k])
+
+//@ func verifLemmaAddressBytesRoundTrip(a, b) (err)
+//@   arith bv
+//@   requires a != nil && b != nil && a != b && (a[0] == 0 || a[0] == 1) && ErrIllegalArgument != nil
+//@   modifies b[*]
+//@   ensures [roundtrip] err == nil && (forall i int :: {b[i]} 0 <= i && i < 21 ==> b[i] == a[i])
